@@ -318,8 +318,19 @@ def idxmaxmin_chunk(x, fn=None, skipna=True, numeric_only=False):
     numeric_only_kwargs = {} if is_series_like(x) else {"numeric_only": numeric_only}
     minmax = "max" if fn == "idxmax" else "min"
     if len(x) > 0:
-        idx = getattr(x, fn)(skipna=skipna, **numeric_only_kwargs)
         value = getattr(x, minmax)(skipna=skipna, **numeric_only_kwargs)
+        # pandas>=3 raises in idxmin/idxmax when there is no valid value. A partition
+        # (or one of its columns) without valid values is no error as long as another
+        # partition has some: it contributes a NaN candidate under an arbitrary label
+        if skipna and is_series_like(value) and value.isna().any():
+            valid = value.index[value.notna()]
+            idx = getattr(x[valid], fn)(skipna=skipna).reindex(
+                value.index, fill_value=x.index[0]
+            )
+        elif skipna and not is_series_like(value) and pd.isna(value):
+            idx = x.index[0]
+        else:
+            idx = getattr(x, fn)(skipna=skipna, **numeric_only_kwargs)
     else:
         idx = value = meta_series_constructor(x)([], dtype="i8")
     if is_series_like(idx):
@@ -333,8 +344,13 @@ def idxmaxmin_row(x, fn=None, skipna=True):
         x = x.set_index("idx")
         # potentially coerced to object, so cast back
         value = x.value.infer_objects()
-        idx = [getattr(value, fn)(skipna=skipna)]
-        value = [getattr(value, minmax)(skipna=skipna)]
+        if skipna and value.isna().all():
+            # still no valid value among the candidates
+            idx = [value.index[0]]
+            value = [np.nan]
+        else:
+            idx = [getattr(value, fn)(skipna=skipna)]
+            value = [getattr(value, minmax)(skipna=skipna)]
     else:
         idx = value = meta_series_constructor(x)([], dtype="i8")
     return meta_frame_constructor(x)(
@@ -356,9 +372,12 @@ def idxmaxmin_combine(x, fn=None, skipna=True):
 
 
 def idxmaxmin_agg(x, fn=None, skipna=True, scalar=False, numeric_only=no_default):
-    res = idxmaxmin_combine(x, fn, skipna=skipna)["idx"]
+    res = idxmaxmin_combine(x, fn, skipna=skipna)
     if len(res) == 0:
         raise ValueError("attempt to get argmax of an empty sequence")
+    if skipna and res["value"].isna().any():
+        raise ValueError("Encountered all NA values")
+    res = res["idx"]
     if scalar:
         return res[0]
     res.name = None
